@@ -326,3 +326,32 @@ func init() {
 	lookup := `\t\t\taminoAcids\.WriteString\(translationTable\[strings\.ToUpper\(currentCodon\.String\(\)\)\]\)\n`
 	silent("C06", "codon-upper-cased-only-when-it-has-lower-case", cd, `(?s)`+lookup+`(.*?)\n// Optimize takes`, "\t\t\taminoAcids.WriteString(translationTable[upperCaseCodon(currentCodon.String())])\n${1}\nfunc upperCaseCodon(codon string) string {\n\tfor i := 0; i < len(codon); i++ {\n\t\tif codon[i] >= 0x80 || ('a' <= codon[i] && codon[i] <= 'z') {\n\t\t\treturn strings.ToUpper(codon)\n\t\t}\n\t}\n\treturn codon\n}\n\n// Optimize takes")
 }
+
+// positive examples for the rules of round 23
+func init() {
+	sh := "seqhash/seqhash.go"
+	gb := "io/genbank/genbank.go"
+	up := "io/uniprot/uniprot.go"
+	cd := "transform/codon/codon.go"
+	fire := func(prop, name, file, find, repl, expect string) {
+		addVariant(variant{Prop: prop, Name: name, File: file, Find: find, Replace: repl, Expect: expect})
+	}
+	silent := func(prop, name, file, find, repl string) {
+		addVariant(variant{Prop: prop, Name: name, File: file, Find: find, Replace: repl, Silent: true})
+	}
+	name := `\tlocus\.Name = filteredLocusSplit\[1\]\n`
+	fire("C01", "locus-name-trimmed-with-a-text-as-cutset", gb, name, "\tlocus.Name = strings.TrimLeft(filteredLocusSplit[1], \"ds-\")\n", "STATE/cutset-as-prefix")
+	silent("C01", "locus-name-trimmed-of-a-prefix", gb, name, "\tlocus.Name = strings.TrimPrefix(filteredLocusSplit[1], \"ds-\")\n")
+	booth := `func boothLeastRotation\(sequence string\) int \{\n`
+	table := func(guard string) string {
+		return "func boothLeastRotation(sequence string) int {\n\tvar present [128]bool\n\tfor i := 0; i < len(sequence); i++ {\n" + guard + "\t\tpresent[sequence[i]] = true\n\t}\n\t_ = present\n"
+	}
+	fire("C12", "letters-marked-in-a-128-entry-table", sh, booth, table(""), "STATE/small-table-by-byte")
+	silent("C12", "ascii-letters-marked-in-a-128-entry-table", sh, booth, table("\t\tif sequence[i] >= 128 {\n\t\t\tcontinue\n\t\t}\n"))
+	fire("C20", "tokenizer-error-asserted-to-be-a-syntax-error", up, `\t\t\terrors <- err\n\t\t\tbreak\n`, "\t\t\terrors <- err.(*xml.SyntaxError)\n\t\t\tbreak\n", "STATE/unchecked-error-assert")
+	freq := `(?s)func getCodonFrequency\(sequence string\) map\[string\]int \{\n\n\tcodonFrequencyHashMap := map\[string\]int\{\}\n`
+	fire("C08", "codon-counts-kept-in-a-package-level-map", cd, freq, "var codonCounts = map[string]int{}\n\nfunc getCodonFrequency(sequence string) map[string]int {\n\n\tcodonFrequencyHashMap := codonCounts\n\tfor codon := range codonFrequencyHashMap {\n\t\tdelete(codonFrequencyHashMap, codon)\n\t}\n", "STATE/scratch-returned")
+	share := `\t\t\tcodonPercentage := float64\(codon\.Weight\) / float64\(codonOccurenceSum\)\n(.*\n)*?\t\t\tif codonPercentage > 0\.10 \{\n`
+	fire("C07", "share-in-whole-per-cent", cd, share, "\t\t\tcodonPercentage := 100 * codon.Weight / codonOccurenceSum\n${1}\t\t\tif codonPercentage > 10 {\n", "TERM-CHOOSER/eligible")
+	silent("C07", "share-in-per-cent", cd, share, "\t\t\tcodonPercentage := 100 * float64(codon.Weight) / float64(codonOccurenceSum)\n${1}\t\t\tif codonPercentage > 10 {\n")
+}
